@@ -16,6 +16,7 @@ func init() {
 	Registry["C11"] = func(c *Ctx) {
 		c.R.NotDecided = append(c.R.NotDecided, "'answers or closes within its timeouts' as timing; release of resources as an observed goroutine / socket set; bounds-check freedom of the parsers is decided by the NO-PANIC rule where armed")
 		panicReachRule(c, "C11/PANIC-REACH", "server", 18)
+		optionalComponentRule(c, "C11/OPTIONAL-COMPONENT", []ocCfg{{"C11", "serverSessionFormat", "rtpReceiver", "ServerSession", "ServerSessionState"}, {"C11", "serverSessionFormat", "rtpSender", "ServerSession", "ServerSessionState"}}, 8)
 		c11Preconditions(c)
 		c11SharedState(c)
 		c11HandlerAssert(c)
